@@ -353,6 +353,9 @@ def _tmpl_number(val):
     return None
 
 
+_FIND_USED = []
+
+
 def _index_base(model, e, env, depth=0):
     """b if e evaluates to (0-based index of the first 'A' of the argument codes) + b, else None"""
     if depth > 5:
@@ -373,6 +376,10 @@ def _index_base(model, e, env, depth=0):
         return None
     if isinstance(e, ast.Call) and isinstance(e.func, ast.Attribute) and e.func.attr == 'index' \
             and len(e.args) == 1 and T.is_const(e.args[0], 'A'):
+        return 0
+    if isinstance(e, ast.Call) and isinstance(e.func, ast.Attribute) and e.func.attr == 'find' \
+            and len(e.args) == 1 and T.is_const(e.args[0], 'A'):
+        _FIND_USED.append(e)        # -1 if there is no 'A': the caller must see a test for that
         return 0
     if isinstance(e, ast.Call) and getattr(e.func, 'id', '') == 'next' and e.args \
             and isinstance(e.args[0], ast.GeneratorExp) and len(e.args[0].generators) == 1:
@@ -454,7 +461,25 @@ def ex1(model):
             wrong_base = None
             num = _tmpl_number(val)
             if num is not None:
+                del _FIND_USED[:]
                 base = _index_base(model, num, env)
+                if base == 1 and _FIND_USED:
+                    # str.find: the path must exclude -1 (>= 0, > -1, != -1 on the index)
+                    def nonneg(e, t):
+                        if not (isinstance(e, ast.Compare) and len(e.ops) == 1 and isinstance(e.comparators[0], (ast.Constant, ast.UnaryOp))):
+                            return False
+                        try:
+                            k = ast.literal_eval(e.comparators[0])
+                        except ValueError:
+                            return False
+                        op = e.ops[0]
+                        if t:
+                            return (isinstance(op, ast.GtE) and k >= 0) or (isinstance(op, ast.Gt) and k >= -1) \
+                                or (isinstance(op, ast.NotEq) and k == -1)
+                        return (isinstance(op, ast.Lt) and k <= 0) or (isinstance(op, ast.LtE) and k <= -1) \
+                            or (isinstance(op, ast.Eq) and k == -1)
+                    if not any(nonneg(e, t) for e, t in conds):
+                        base = 0        # '#0' when no mandatory argument exists
                 if base == 1:
                     is_tmpl = True
                 elif base is not None:
